@@ -29,6 +29,9 @@ func init() {
 }
 
 func c17Freq(c *core.Ctx, hz int64) bool {
+	if hz > math.MaxInt {
+		return true // backend.Frequency is an int: where int is 32 bits wide this is not a value of the type
+	}
 	f := backend.Frequency(hz)
 	// through encoding/json, as applications do, by value and by pointer (no direct method call: the
 	// method set of the type is not the harness' business)
